@@ -8,13 +8,13 @@ CONSTANTS
   MetricDefs <- AgentMetrics
   SlotDefs <- AgentSlots
   Sizes <- Sz13
-  WWs = {1, 2}
+  WWs = {1}
   MWs = {1}
   NWs = {1}
   GWs = {1}
   Buds = {0, 2}
   NSAs = {FALSE, TRUE}
-  OptSets <- OptsAgent
+  OptSets <- OptsAgent3
   Budgets = {4}
 VIEW MCView
 INVARIANTS TypeOK AtMostOnce ExactlyOnce Unbiased KeptRowsFactorGE1 NoSampleAgentKept SameFactorInLeaf FitsNothingSampled FairShare FixedWithinBudget FairShareRemaining FitIsJustified Monotone KeptWithinBudget QuotaWithinTotal QuotaProportional QuotaFitIsSize QuotaWithinTotalAnyRounding
